@@ -426,6 +426,7 @@ TSys == /\ tl <= Len(Traces[tk])
 TSysPrep == /\ tl <= Len(Traces[tk])
             /\ Ev.k = "sys"
             /\ pc[cur[TIdx(Ev.t)]] \notin SysLabels[Ev.op]
+            /\ pc[cur[TIdx(Ev.t)]] \notin PinnedLabels
             /\ Step(cur[TIdx(Ev.t)])
             /\ FrameOK(<<>>)
             /\ tn < MaxStepsPerEvent
